@@ -48,6 +48,9 @@ def cases(tier, seed):
                 for site in ("network", "equation", "both"):
                     for b in BOUNDS[tier]["bs"]:
                         out.append(dict(type="batch", kind=kind, batched=list(sub), site=site, b=b, obs_param=False))
+                    if site == "both" and "a" in sub:
+                        # the caller's value of a batched key is only a placeholder; it may be an integer
+                        out.append(dict(type="batch", kind=kind, batched=list(sub), site=site, b=2, obs_param=False, placeholder="int"))
                     if site == "both":
                         # the observation part carries an observed column of 'b' as well (it overrides both the caller's
                         # value and the parameter batch, for the observation term only)
@@ -120,6 +123,8 @@ def build(case, hetero=None):
     use_eq = case.get("site", "both") in ("equation", "both")
     u, coef, expo = L.make_u(bk, d, 1, deg=2, salt=6, input_transform=in_tr_net if use_net else None)
     eqp = {k: jnp.asarray(CALLER[k]) for k in ("c", "a", "b")}  # non-alphabetical insertion order
+    if case.get("placeholder") == "int":
+        eqp["a"] = jnp.asarray(1)
     EQC = {"ode": EqO, "statio": EqS, "nonstatio": EqN}[bk]
     sysk = "u" if kind.startswith("sys") else None
     dyn = EQC(use_eq=use_eq, key=sysk, eq_params_heterogeneity=hetero)
@@ -226,7 +231,7 @@ def run_batch(case):
             v.append(V(site, "term_is_not_the_per_sample_formula", f"batched {case['batched']} consumed in {case['site']}: {k} = {terms.get(k)} expected {e}"))
     # gradients (single losses: all their terms are differentiated w.r.t. both groups; the system losses here keep
     # the default network-only keys, so there is nothing to compare for the equation parameters)
-    if not v and not kind.startswith("sys"):
+    if not v and not kind.startswith("sys") and case.get("placeholder") != "int":
         g = jax.grad(lambda p: P["loss"].evaluate(p, batch)[0])(params)
         h = 1e-6
         for k in KEYS3:
